@@ -495,6 +495,12 @@ class ConnectionPool(Entity):
             self._min_connections,
         )
 
+        # Creating the later connections took time: a check that is already due is
+        # scheduled for now rather than for a moment in the past.
+        emit_time = self.now
+        for timeout_event in events:
+            if timeout_event.time < emit_time:
+                timeout_event.time = emit_time
         return events if events else None
 
     def _handle_idle_timeout(self, event: Event) -> list[Event] | None:
